@@ -45,12 +45,14 @@ CHECKS['C13'] = dict(
           'meets its successor recurrence; the GENERATED weekday kernel is the true weekday; serial is strictly monotone in '
           '(y,m,d) (so ordering/equality/hash/subtraction follow the calendar); table steps of add_days move the serial by '
           'exactly one and forward/backward steps are inverse; add_months lands in the arithmetic target month clipped to '
-          'its last day; the GENERATED next_cds_date is the first 20 Mar/Jun/Sep/Dec strictly after; results do not depend '
-          'on the table-extension state. Tie: kernels regenerated from date.py each run + exhaustive correspondence '
+          'its last day; the GENERATED next_cds_date is the first 20 Mar/Jun/Sep/Dec strictly after; third_wednesday_of_month '
+          'is total, a Wednesday in 15..21 and unique; next_imm_date is the first third-Wednesday of Mar/Jun/Sep/Dec strictly '
+          'after; iterated month steps move the month index by exactly k*step and nY = 12nM whenever both succeed; '
+          'add_weekdays never lands on a weekend; results do not depend on the table-extension state. Tie: kernels regenerated from date.py each run + exhaustive correspondence '
           '(implementation = model = spec = Python datetime) on every date 1900-03-01..2200-12-31, sampled arithmetic, '
           'malformed constructor stream, call histories in fresh interpreters.'),
     note=BASE_NOTE + 'fastmath float division in the compiled date_from_index is validated exhaustively, not proved; add_years with '
-         'fractional years not modelled; next IMM minimality is validated against a day-by-day search spec, not proved.',
+         'fractional years not modelled; nY = 12nM is proved when both calls succeed (joint failure below 1900 is compared, not proved).',
     technique='Lean 4 theorems (omega/case analysis) on generated kernels + hand model; exhaustive model/implementation/spec correspondence',
     design='§5 C13')
 
@@ -61,10 +63,14 @@ CHECKS['C16'] = dict(
           'dates (else FinError); its first date is the unadjusted effective date; BACKWARD/FORWARD roll dates are whole '
           'multiples of the period computed from the anchor (no drift); regeneration is a fixed point when the '
           'termination date is not moved by adjustment, with a kernel-checked counterexample for the full statement '
-          '(known finding C16/regenerate-reanchors). Tie: exact date-by-date correspondence implementation = model on '
-          '>= 7e3 schedules per quick run over all calendars/conventions/rules/flags, acceptance against the '
-          'source-independent ideal roll schedule, and inheritance by swap legs and bonds.'),
-    note=BASE_NOTE + 'The ideal schedule is my reading of the ISDA roll rule; first_dt/next_to_last_dt (documented as unimplemented) are not exercised; the last-date theorem is validated by correspondence only.',
+          '(known finding C16/regenerate-reanchors); the last date is the termination date, adjusted iff requested. The '
+          'CDS premium-leg generator is modelled separately (Core/CDSAlgo): unadjusted dates are whole multiples of the '
+          'period from the anchor, every payment date is the adjustment of such a roll (none lost), the last is the '
+          'adjusted maturity, accrual periods chain. Tie: exact date-by-date correspondence implementation = model on '
+          '>= 7e3 schedules and >= 4e2 CDS contracts per quick run over all calendars/conventions/rules/flags, acceptance '
+          'against the source-independent ideal roll schedule / ideal CDS payments, and inheritance by swap legs, bonds, '
+          'FRNs and cap/floors.'),
+    note=BASE_NOTE + 'The ideal schedule is my reading of the ISDA roll rule; first_dt/next_to_last_dt (documented as unimplemented) are not exercised.',
     technique='Lean 4 induction over the generation loops of a hand model + exact model/implementation correspondence + spec acceptance',
     design='§5 C16')
 
